@@ -8,33 +8,42 @@
 (* listed.  TLC explores every history of AddChart / AddColumn (with the   *)
 (* view ids that exist at that moment) to the depth bound and prints the   *)
 (* prescribed Views; each is replayed on the real helper.Report.           *)
+(* Doc is the document the template must render from that state for ND     *)
+(* dates: one chart container and one ChartWrapper per view (the wrapper   *)
+(* of view i plots column 0 = the date axis, then the view's column ids;   *)
+(* the main view is 400 high, the others 200), one declared data-table     *)
+(* column per report column (type / role by kind), ND rows of 1 + ncols    *)
+(* cells where cell c of row r is the r-th value of column c, and every    *)
+(* chart bound to the range filter.  The replay renders the real report    *)
+(* and reads the HTML / JS back.                                           *)
 (***************************************************************************)
 EXTENDS Integers, Sequences, FiniteSets, TLC, Json
 
-CONSTANTS Depth, MaxListed     \* history length; how many views one AddColumn may list
+CONSTANTS Depth, MaxListed, ND \* history length; how many views one AddColumn may list; number of date rows
 
-VARIABLES ncols, views, h
-vars == <<ncols, views, h>>
+VARIABLES ncols, views, kinds, h
+vars == <<ncols, views, kinds, h>>
 
-Init == ncols = 0 /\ views = <<<<>>>> /\ h = <<>>        \* views[i + 1] = the column ids of view i
+Init == ncols = 0 /\ views = <<<<>>>> /\ kinds = <<>> /\ h = <<>>        \* views[i + 1] = the column ids of view i
 
 AddChart == /\ Len(h) < Depth
             /\ views' = Append(views, <<>>)
             /\ h' = Append(h, [op |-> "chart", ret |-> Len(views)])       \* the new view's id
-            /\ UNCHANGED ncols
+            /\ UNCHANGED <<ncols, kinds>>
 \* charts: a sequence of existing view ids (repetitions allowed, as the API allows them)
-AddColumn(charts) ==
+AddColumn(charts, kind) ==
   /\ Len(h) < Depth
   /\ ncols' = ncols + 1
+  /\ kinds' = Append(kinds, kind)
   /\ LET listed == IF charts = <<>> THEN <<0>> ELSE charts
          Count(v) == Cardinality({i \in 1..Len(listed) : listed[i] = v})
          RECURSIVE Rep(_, _)
          Rep(x, k) == IF k = 0 THEN <<>> ELSE <<x>> \o Rep(x, k - 1)
      IN views' = [v \in 1..Len(views) |-> views[v] \o Rep(ncols + 1, Count(v - 1))]
-  /\ h' = Append(h, [op |-> "column", charts |-> charts, ret |-> ncols + 1])
+  /\ h' = Append(h, [op |-> "column", charts |-> charts, kind |-> kind, ret |-> ncols + 1])
 ViewIds == 0..(Len(views) - 1)
 ChartLists == UNION {[1..k -> ViewIds] : k \in 0..MaxListed}
-Next == AddChart \/ \E cs \in ChartLists : AddColumn(cs)
+Next == AddChart \/ \E cs \in ChartLists, k \in {"num", "ann"} : AddColumn(cs, k)
 Spec == Init /\ [][Next]_vars
 
 \* every column is filed under at least one view; ids are valid and in insertion order inside each view
@@ -43,5 +52,19 @@ Valid == \A v \in 1..Len(views) : \A i \in 1..Len(views[v]) :
            /\ views[v][i] \in 1..ncols
            /\ (i > 1 => views[v][i - 1] <= views[v][i])
 MainViewStays == Len(views) >= 1
-Emit == (Len(h) = Depth) => PrintT("HIST " \o ToJson([h |-> h, views |-> views, ncols |-> ncols]))
+
+\* the rendered document
+Doc == [containers |-> [v \in 1..Len(views) |-> v - 1],
+        wrappers   |-> [v \in 1..Len(views) |-> [container |-> v - 1, height |-> IF v = 1 THEN 400 ELSE 200,
+                                                  columns |-> <<0>> \o views[v]]],
+        declared   |-> [c \in 1..ncols |-> IF kinds[c] = "num" THEN [type |-> "number", role |-> "data"]
+                                                                ELSE [type |-> "string", role |-> "annotation"]],
+        rows       |-> [r \in 1..ND |-> [c \in 1..ncols |-> <<c, r>>]],       \* cell = (column, position in its stream)
+        bound      |-> [v \in 1..Len(views) |-> v - 1]]
+\* every wrapper plots the date axis first; every column is plotted by some wrapper; every row is complete
+DocOK == /\ \A v \in 1..Len(views) : Doc.wrappers[v].columns[1] = 0
+         /\ \A c \in 1..ncols : \E v \in 1..Len(views) : \E i \in 2..Len(Doc.wrappers[v].columns) : Doc.wrappers[v].columns[i] = c
+         /\ \A r \in 1..ND : Len(Doc.rows[r]) = ncols
+         /\ Len(Doc.bound) = Len(Doc.containers)
+Emit == (Len(h) = Depth) => PrintT("HIST " \o ToJson([h |-> h, views |-> views, ncols |-> ncols, doc |-> Doc]))
 =============================================================================
